@@ -48,11 +48,13 @@ Section P.
   Notation cmd := (cmd C).
   Notation entry := (entry C).
 
-  Lemma publish_nonblocking : forall (st : state) m,
+  Lemma publish_nonblocking : forall (st : state) m, closed C st = false ->
     exists st', step st (LPublish m) = Some st'
       /\ queue C st' = queue C st ++ [Data m] /\ batch C st' = batch C st /\ dp C st' = dp C st
       /\ subscribers C st' = subscribers C st /\ actors C st' = actors C st.
-  Proof. intros st m. eexists. split; [reflexivity|]. cbn. repeat split; reflexivity. Qed.
+  Proof.
+    intros st m Hc. unfold V2.step. rewrite Hc. eexists. split; [reflexivity|]. cbn. repeat split; reflexivity.
+  Qed.
 
   (* ---------- command lists ---------- *)
   Fixpoint set_ids (l : list cmd) : list N :=
@@ -289,7 +291,7 @@ Section P.
   Lemma winv_apply_append : forall (st : state) b s a c, WInv st ->
     dp C st = DApply b -> nth_error (batch C st) b = Some (SetSub s a c) ->
     WInv (mkSt C (queue C st) (batch C st) (DSeg (S b)) (subscribers C st ++ [mkEntry C s a c])
-               (actors C st) (decl C st)).
+               (actors C st) (decl C st) (closed C st)).
   Proof.
     intros st b s a c I Dp Nb.
     pose proof (skipn_nth_cons2 _ _ _ _ Nb) as Hr.
@@ -305,7 +307,7 @@ Section P.
     dp C st = DApply b -> nth_error (batch C st) b = Some (SetSub s a c) ->
     subscribers C st = l1 ++ x :: l2 ->
     WInv (mkSt C (queue C st) (batch C st) (DSeg (S b)) (l1 ++ mkEntry C s a c :: l2)
-               (actors C st) (decl C st)).
+               (actors C st) (decl C st) (closed C st)).
   Proof.
     intros st b s a c l1 x l2 I Dp Nb Hs.
     pose proof (skipn_nth_cons2 _ _ _ _ Nb) as Hr.
@@ -326,12 +328,14 @@ Section P.
   Proof.
     intros st st' l I H. destruct l; cbn [V2.step] in H.
     - (* LPublish *)
+      destruct (closed C st); [discriminate|].
       inversion H; subst; clear H. destruct I as [Ind Ie Ic It].
       constructor; unfold ids in *; cbn; auto.
       + rewrite set_ids_app. cbn. rewrite app_nil_r. exact Ind.
       + intros s a c Hin. apply Ic. rewrite app_assoc in Hin. apply in_app_or in Hin.
         destruct Hin as [Hin|[Hin|[]]]; [assumption|discriminate].
     - (* LSubscribe *)
+      destruct (closed C st); [discriminate|].
       destruct (decl C st s) eqn:D; [discriminate|]. inversion H; subst; clear H.
       assert (Hfresh : ~ In s (ids st)) by (intros Hin; exact (in_ids_decl st s I Hin D)).
       destruct I as [Ind Ie Ic It].
@@ -444,6 +448,9 @@ Section P.
       eapply winv_frame; [exact I|reflexivity|reflexivity|reflexivity|reflexivity|].
       intros a' it Hin. cbn in Hin. unfold updf in Hin. destruct (N.eqb a' a) eqn:Ea; [|assumption].
       apply N.eqb_eq in Ea. subst a'. cbn in Hin. assumption.
+    - (* LClose *)
+      destruct (closed C st); [discriminate|]. inversion H; subst; clear H.
+      eapply winv_frame; [exact I|reflexivity|reflexivity|reflexivity|reflexivity|auto].
   Qed.
 
   (* ---------- refinement ---------- *)
@@ -551,7 +558,7 @@ Section P.
   Qed.
 
   Lemma backlog_after_apply : forall (st : state) b l' s,
-    backlog C (mkSt C (queue C st) (batch C st) (DSeg (S b)) l' (actors C st) (decl C st)) s =
+    backlog C (mkSt C (queue C st) (batch C st) (DSeg (S b)) l' (actors C st) (decl C st) (closed C st)) s =
     if has s l'
     then Some (datas C (skipn (S b) (batch C st)) ++ datas C (queue C st))
     else after_set C s (skipn (S b) (batch C st) ++ queue C st).
@@ -571,12 +578,13 @@ Section P.
     crun0 (cv c) (absv C s a st) (proj C s a l) = Some (absv C s a st') /\ okfor s a c st' t.
   Proof.
     intros s a c st st' l t I Ok H.
-    destruct l as [m|s' a' c'|n| |s'|r|a' s'|a'|a'].
+    destruct l as [m|s' a' c'|n| |s'|r|a' s'|a'|a'| ].
     - (* LPublish *)
-      cbn [V2.step] in H. inversion H; subst; clear H. split; [|exact Ok].
+      cbn [V2.step] in H. destruct (closed C st) eqn:Cl; [discriminate|].
+      inversion H; subst; clear H. split; [|exact Ok].
       cbn [proj crun]. unfold absv. cbn [decl actors].
       destruct (decl C st s) as [[a0 c0]|]; [|reflexivity].
-      assert (Hb : backlog C (mkSt C (queue C st ++ [Data m]) (batch C st) (dp C st) (subscribers C st) (actors C st) (decl C st)) s
+      assert (Hb : backlog C (mkSt C (queue C st ++ [Data m]) (batch C st) (dp C st) (subscribers C st) (actors C st) (decl C st) false) s
                    = option_map (fun b => b ++ [m]) (backlog C st s)).
       { unfold backlog, rem_batch, batch_rest. cbn [subscribers queue dp batch].
         destruct (index_of C s (subscribers C st)).
@@ -587,7 +595,8 @@ Section P.
           + rewrite (after_set_app_r _ _ [Data m] E). reflexivity. }
       rewrite Hb. destruct (backlog C st s); reflexivity.
     - (* LSubscribe *)
-      cbn [V2.step] in H. destruct (decl C st s') eqn:D; [discriminate|]. inversion H; subst; clear H.
+      cbn [V2.step] in H. destruct (closed C st) eqn:Cl; [discriminate|].
+      destruct (decl C st s') eqn:D; [discriminate|]. inversion H; subst; clear H.
       cbn [proj]. destruct (N.eqb s' s) eqn:Es.
       + apply N.eqb_eq in Es. subst s'. unfold okfor in Ok. rewrite D in Ok. cbn in Ok. rewrite N.eqb_refl in Ok.
         destruct (Ok a' c' eq_refl) as [-> ->].
@@ -597,7 +606,7 @@ Section P.
           unfold backlog. cbn [subscribers queue]. rewrite index_of_none.
           2:{ intros Hin. apply Hn. apply in_or_app. left. exact Hin. }
           assert (Hb : batch_rest C (mkSt C (queue C st ++ [SetSub s a c]) (batch C st) (dp C st) (subscribers C st)
-                         (actors C st) (updf (decl C st) s (Some (a, c)))) = batch_rest C st) by reflexivity.
+                         (actors C st) (updf (decl C st) s (Some (a, c))) false) = batch_rest C st) by reflexivity.
           rewrite Hb, app_assoc, after_set_app_r.
           2:{ apply after_set_none. rewrite set_ids_app. intros Hin. apply Hn. apply in_or_app. right. exact Hin. }
           cbn. rewrite N.eqb_refl. reflexivity.
@@ -671,7 +680,7 @@ Section P.
           -- split; [|unfold okfor in *; cbn [decl]; exact Ok].
              f_equal. unfold absv. cbn [decl actors]. rewrite De, Al.
              unfold backlog. cbn [subscribers queue]. rewrite (index_of_remove s _ si Hnds), Hidx, Nat.eqb_refl.
-             assert (Hrest : batch_rest C (mkSt C (queue C st) (batch C st) (DSub x b si) (remove_nth si (subscribers C st)) (actors C st) (decl C st))
+             assert (Hrest : batch_rest C (mkSt C (queue C st) (batch C st) (DSub x b si) (remove_nth si (subscribers C st)) (actors C st) (decl C st) (closed C st))
                              = batch_rest C st) by (unfold batch_rest; cbn [dp batch]; rewrite Dp; reflexivity).
              rewrite Hrest, after_set_none; [reflexivity|].
              rewrite set_ids_app. intros Hin.
@@ -697,7 +706,7 @@ Section P.
             - inversion Hi; subst. cbn in Ne. inversion Ne; subst. apply N.eqb_eq in E. congruence.
             - destruct (index_of C s l) eqn:E2; [|discriminate]. inversion Hi; subst. cbn in Ne. eapply IH; eauto. }
           apply H0. rewrite Hi, (index_of_nth s' _ si e Hnds Ne Es'). reflexivity. }
-        assert (Hsame : forall mi', backlog C (mkSt C (queue C st) (batch C st) (DMsg x b si mi') (subscribers C st) (actors C st) (decl C st)) s
+        assert (Hsame : forall mi', backlog C (mkSt C (queue C st) (batch C st) (DMsg x b si mi') (subscribers C st) (actors C st) (decl C st) (closed C st)) s
                         = backlog C st s).
         { intros mi'. apply backlog_eq; try reflexivity.
           - intros i Hidx'. specialize (Hi i Hidx'). unfold rem_batch. cbn [dp batch]. rewrite Dp.
@@ -708,8 +717,8 @@ Section P.
         * destruct (a_alive (actors C st (e_actor C e))) eqn:Al; injection H as <-.
           -- split; [|unfold okfor in *; cbn [decl]; exact Ok].
              cbn [crun]. f_equal. unfold absv. cbn [decl].
-             match goal with |- context [backlog C (mkSt C ?q ?bt ?d ?su ?ac ?de) s] =>
-               assert (Hb : backlog C (mkSt C q bt d su ac de) s = backlog C st s) by (apply (Hsame (S mi))) end.
+             match goal with |- context [backlog C (mkSt C ?q ?bt ?d ?su ?ac ?de ?cl) s] =>
+               assert (Hb : backlog C (mkSt C q bt d su ac de cl) s = backlog C st s) by (apply (Hsame (S mi))) end.
              rewrite Hb. cbn [actors]. unfold updf. destruct (N.eqb a (e_actor C e)) eqn:Ea; [|reflexivity].
              apply N.eqb_eq in Ea. subst a. cbn [a_mbox a_got a_alive].
              rewrite tagged_app2, (tagged_one_other2 _ _ _ Es), app_nil_r, Al.
@@ -741,7 +750,7 @@ Section P.
         - apply IH; assumption. }
       assert (Happ : crun0 (cv c) (absv C s a st) [] =
                      Some (absv C s a (mkSt C (queue C st) (batch C st) (DSeg (S b))
-                                         (subscribers C st ++ [mkEntry C s0 a0 c0]) (actors C st) (decl C st)))).
+                                         (subscribers C st ++ [mkEntry C s0 a0 c0]) (actors C st) (decl C st) (closed C st)))).
       { cbn [crun]. f_equal. symmetry. apply absv_eq; try reflexivity.
         rewrite (backlog_before_apply st b s0 a0 c0 s Dp Nb), backlog_after_apply.
         destruct (N.eqb s0 s) eqn:E0.
@@ -828,13 +837,13 @@ Section P.
         unfold okfor in Ok. rewrite D1 in Ok. destruct Ok as [Ha _]. subst a'.
         cbn [crun]. unfold absv. cbn [decl actors]. rewrite D1, updf_same2. cbn [a_mbox a_got a_alive].
         assert (Hb : backlog C (mkSt C (queue C st) (batch C st) (dp C st) (subscribers C st)
-                       (updf (actors C st) a (mkActor true true q (a_got (actors C st a) ++ [(s, r)]))) (decl C st)) s
+                       (updf (actors C st) a (mkActor true true q (a_got (actors C st a) ++ [(s, r)]))) (decl C st) (closed C st)) s
                      = backlog C st s) by reflexivity.
         rewrite Hb, Al, M, tagged_cons_same2, tagged_app2, tagged_one_same2.
         destruct (backlog C st s); reflexivity.
       + cbn [crun]. f_equal. unfold absv. cbn [decl actors].
         assert (Hb : backlog C (mkSt C (queue C st) (batch C st) (dp C st) (subscribers C st)
-                       (updf (actors C st) a' (mkActor true true q (a_got (actors C st a') ++ [(s', r)]))) (decl C st)) s
+                       (updf (actors C st) a' (mkActor true true q (a_got (actors C st a') ++ [(s', r)]))) (decl C st) (closed C st)) s
                      = backlog C st s) by reflexivity.
         rewrite Hb. unfold updf. destruct (N.eqb a a') eqn:Ea; [|reflexivity].
         apply N.eqb_eq in Ea. subst a'. cbn [a_mbox a_got a_alive].
@@ -848,7 +857,7 @@ Section P.
       + apply N.eqb_eq in Ea. subst a'. cbn [crun]. unfold absv. cbn [decl actors]. rewrite updf_same2.
         cbn [a_mbox a_got a_alive].
         assert (Hb : backlog C (mkSt C (queue C st) (batch C st) (dp C st) (subscribers C st)
-                       (updf (actors C st) a (mkActor false (a_started (actors C st a)) [] (a_got (actors C st a)))) (decl C st)) s
+                       (updf (actors C st) a (mkActor false (a_started (actors C st a)) [] (a_got (actors C st a)))) (decl C st) (closed C st)) s
                      = backlog C st s) by reflexivity.
         rewrite Hb, Al. destruct (decl C st s); [destruct (backlog C st s)|]; reflexivity.
       + cbn [crun]. f_equal. symmetry. apply absv_eq; try reflexivity.
@@ -860,10 +869,14 @@ Section P.
       inversion H; subst; clear H.
       split; [|unfold okfor in *; cbn [decl]; exact Ok].
       cbn [proj crun]. f_equal. unfold absv. cbn [decl actors].
-      match goal with |- context [backlog C (mkSt C ?q ?bt ?d ?su ?ac ?de) s] =>
-        assert (Hb : backlog C (mkSt C q bt d su ac de) s = backlog C st s) by reflexivity end.
+      match goal with |- context [backlog C (mkSt C ?q ?bt ?d ?su ?ac ?de ?cl) s] =>
+        assert (Hb : backlog C (mkSt C q bt d su ac de cl) s = backlog C st s) by reflexivity end.
       rewrite Hb. unfold updf. destruct (N.eqb a a') eqn:Ea; [|reflexivity].
       apply N.eqb_eq in Ea. subst a'. cbn [a_mbox a_got a_alive]. rewrite Al. reflexivity.
+    - (* LClose *)
+      cbn [V2.step] in H. destruct (closed C st); [discriminate|]. inversion H; subst; clear H.
+      split; [|unfold okfor in *; cbn [decl]; exact Ok].
+      cbn [proj crun]. f_equal.
   Qed.
 
   Lemma sim_run : forall s a c ls (st st' : state),
